@@ -36,6 +36,33 @@ func keySet(cfg ctrl.Config) string {
 	return strings.Join(p, ",")
 }
 
+// cfgSig identifies what a stored report depends on besides the manifest: the
+// configured scanners AND how the ecosystems group them (each ecosystem's
+// coalescer sees only its own scanners' artifacts). The order of ecosystems and
+// of scanners inside one does not matter.
+func cfgSig(cfg ctrl.Config) string {
+	necos := 0
+	for _, s := range cfg {
+		necos = max(necos, s.Eco+1)
+	}
+	var ecos []string
+	for e := 0; e < necos; e++ {
+		var ks []string
+		for _, s := range cfg {
+			if s.Eco == e {
+				ks = append(ks, s.KindName()+"/"+s.Name+"/"+s.Version)
+			}
+		}
+		if len(ks) == 0 {
+			continue
+		}
+		sort.Strings(ks)
+		ecos = append(ecos, strings.Join(ks, ","))
+	}
+	sort.Strings(ecos)
+	return strings.Join(ecos, " | ")
+}
+
 type hist struct {
 	r *hx.Run
 	s *ctrl.Session
@@ -155,7 +182,7 @@ func (h *hist) index(m []int, script ctrl.Script) {
 		}
 	}
 	if wrote && res.Trace != "MGR" {
-		h.written[ms] = keySet(cfg)
+		h.written[ms] = cfgSig(cfg)
 	}
 	if strings.Contains(res.Trace, "Y") {
 		h.clobbered[ms] = false
@@ -230,7 +257,10 @@ func (h *hist) index(m []int, script ctrl.Script) {
 			switch {
 			case h.clobbered[ms]:
 				cls = FindingClobber
-			case h.written[ms] != "" && h.written[ms] != keySet(cfg):
+			case h.written[ms] != "" && h.written[ms] != cfgSig(cfg):
+				// the stored report was last written under another scanner set, or under the
+				// same scanners grouped into other ecosystems (the scanned_manifest rows,
+				// and the state token, cannot tell)
 				cls = FindingStale
 			}
 		}
@@ -440,6 +470,19 @@ func (h *hist) known() {
 	cold := h.s.Cold(a, m)
 	if res.Trace == "MGR" && res.Body != cold.Body {
 		h.r.KnownSeen(FindingStale, fmt.Sprintf("config %s; index 1.2; config %s; index 1.2 => %s ; cold run under %s => b=%s", ab, a, res.Line(), a, cold.Body))
+	}
+	// the same scanners regrouped into other ecosystems: the report coalesced under the old grouping is returned
+	g1 := ctrl.Config{{Eco: 0, Kind: 'r', Name: "b", Version: "1"}, {Eco: 1, Kind: 'p', Name: "c", Version: "1"}, {Eco: 0, Kind: 'd', Name: "c", Version: "v1"}, {Eco: 1, Kind: 'p', Name: "bc", Version: "1"}}
+	g2 := ctrl.Config{{Eco: 0, Kind: 'r', Name: "b", Version: "1"}, {Eco: 0, Kind: 'd', Name: "c", Version: "v1"}, {Eco: 1, Kind: 'p', Name: "bc", Version: "1"}, {Eco: 0, Kind: 'p', Name: "c", Version: "1"}}
+	mg := []int{4, 4, 1, 2}
+	h.reset()
+	h.s.Config(g1)
+	h.s.Index(mg, ctrl.Script{}, false)
+	h.s.Config(g2)
+	res = h.s.Index(mg, ctrl.Script{}, false)
+	cold = h.s.Cold(g2, mg)
+	if res.Trace == "MGR" && res.Body != cold.Body && keySet(g1) == keySet(g2) {
+		h.r.KnownSeen(FindingStale, fmt.Sprintf("config %s; index 4.4.1.2; config %s (same scanners, c moved to ecosystem 0, same state token); index 4.4.1.2 => %s ; cold run => b=%s", g1, g2, res.Line(), cold.Body))
 	}
 	// a failed re-index overwrites the finished report
 	h.reset()
